@@ -35,8 +35,16 @@
   of ANY length (the truncation of over-long significands included) reads as a finite double within
   that bound of its exact value, or is rejected as NumberOutOfRange at its end; kernel-evaluated
   instances equal to the bits the real code returns (1e-23, 5e-324, 1e-320, 18446744073709551616.5, …).
-  Not covered by a theorem: written exponents beyond i32 (carried by the exact-value oracle and the
-  correspondence), and that acceptance is complete near f64::MAX (known finding).
+  Written exponents of ANY size (LexprModel/Proofs/ExpOverflow.lean, ExpOverflowVal.lean, ExpAll.lean; imported
+  here): `scan_over` (the overflow path of `parse_exponent` / `parse_exponent_overflow` in closed form),
+  `C05_exp_overflow` — an exponent that does not fit i32 gives signed zero when every digit is zero (value 0)
+  or the exponent is negative (value below 2^-1075: zero IS the correct rounding), and NumberOutOfRange when
+  positive (value at least 2^1024); `C05_accuracy_all_exponents` — the accuracy statement with no bound on the
+  exponent at all, for literals shorter than 2^31 - 324 bytes.  That length bound is needed
+  (`length_bound_needed`, `length_bound_needed_pos`: a 2 GiB run of zeros can compensate the exponent —
+  reproduced on the real crate: `1` + (2^31-101 zeros) + `e-2147483648` reads as 0.0 although it denotes
+  1e-101; recorded in DESIGN.md section 9 as an observation, no check feeds 2 GiB inputs).
+  Not covered by a theorem: that acceptance is complete near f64::MAX (known findings).
   Proved here, against the table regenerated from the code on this run: every `POW10`
   entry is the correctly rounded power of ten and the first 23 are exact (the premise of the
   exactness region |exponent| ≤ 22); and basic facts of the rounding function.
@@ -45,6 +53,7 @@ import LexprModel.TablesCheck
 import LexprModel.Proofs.Numbers
 import LexprModel.Proofs.Decimals
 import LexprModel.Proofs.Accuracy
+import LexprModel.Proofs.ExpAll
 namespace Lexpr
 namespace F64
 
